@@ -118,7 +118,12 @@ type Conn struct {
 	muted       int32
 	closed      int32
 	started     bool
+	sysPeers    int32 // number of system.peers results sent on this connection
 }
+
+// PeersAnswered tells how many system.peers queries this connection has answered (a control connection is fully
+// established once its system.local and system.peers queries were answered).
+func (x *Conn) PeersAnswered() int { return int(atomic.LoadInt32(&x.sysPeers)) }
 
 type held struct {
 	conn  *Conn
@@ -419,6 +424,17 @@ func (c *Cluster) Emit(msg message.Message) int {
 	return n
 }
 
+// EstablishedControlConns returns the open registered connections whose initial system queries were answered.
+func (c *Cluster) EstablishedControlConns() []*Conn {
+	var out []*Conn
+	for _, x := range c.ControlConns() {
+		if x.PeersAnswered() >= 1 {
+			out = append(out, x)
+		}
+	}
+	return out
+}
+
 // ControlConns returns the open registered connections.
 func (c *Cluster) ControlConns() []*Conn {
 	var out []*Conn
@@ -694,6 +710,9 @@ func (x *Conn) handle(hdr *frame.Header, raw []byte) {
 				}
 			}
 			x.sendMsg(hdr.StreamId, c.systemRows(x, t), Outcome{Name: "System:" + t}, "reply")
+			if t == "peers" {
+				atomic.AddInt32(&x.sysPeers, 1)
+			}
 			return
 		}
 		if strings.HasPrefix(lq, "use ") {
